@@ -45,7 +45,7 @@ func vpReadBack(m map[string]interface{}) (func(string, bool) bool, func(string,
 //vp:property C19
 //vp:set s 2 3
 //vp:set budget 200 1200
-//vp:bounds a template file of up to nine lines in a fixed order: compression (i:0 | i:1), allow font smoothing (i:0 | i:1), authentication level (i:0 | i:2 | i:3), desktopwidth (i:0 | i:1920), audiomode written with the string type (s:2), alternate shell (s: + 0..s symbolic printable bytes without blanks or colons), drivestoredirect (s:* | s:false | s: empty), an unknown setting, a comment line and a blank line; LF or CRLF line ends. Per path ONE of the seven settings runs through all its variants (absent included) while the other six are jointly absent or jointly present with fixed non-default values
+//vp:bounds a template file of up to nine lines in a fixed order: compression (i:0 | i:1), allow font smoothing (i:0 | i:1), authentication level (i:0 | i:2 | i:3), desktopwidth (i:0 | i:1920), audiomode written with the string type (s:2), alternate shell (s: + 0..s symbolic printable bytes without blanks or colons), drivestoredirect (s:* | s:false | s: empty), an unknown setting, a comment line and a blank line; LF or CRLF line ends; with or without a UTF-8 byte order mark in front. Per path ONE of the seven settings runs through all its variants (absent included) while the other six are jointly absent or jointly present with fixed non-default values
 //vp:assume koanf, its file provider and mapstructure are modelled at their API (see the head of this file) and compared with the real libraries on every explored path; a setting absent from a generated file is read back as its built-in default
 //vp:reach built kept
 func VP_C19_template() {
@@ -80,6 +80,10 @@ func VP_C19_template() {
 		if tv != "" {
 			text += key + ":" + tv + eol
 		}
+	}
+	if vpBool("byte-order-mark") {
+		// Windows editors (and mstsc itself, when it saves UTF-8) put a byte order mark in front of the text
+		text = "\xef\xbb\xbf"
 	}
 	if vpBool("comment-line") {
 		text += "# administrator's defaults" + eol + eol
